@@ -115,8 +115,16 @@ def execute(run, prop, shard):
         if rng.random() < 0.5:
             L = len(order) if order else 5
             alias_at = tuple(sorted(rng.sample(range(L), rng.randint(1, min(2, L)))))
+        c_only = (i % 3) != 2
+        if not c_only:
+            # references through earlier table handles (e.g. to a window column that a select has hidden since);
+            # no repair re-run for these: an inserted alias() would cut the references by design
+            order = [rng.choice(gen.SUBQ_ALPHABET_REFS) for _ in range(rng.randint(3, 7))]
+            if rng.random() < 0.6:
+                k = rng.randrange(len(order))
+                order[k:k] = ["mutate_win", "select", "filter", "use_hidden_win"]
         try:
-            prog = gen.gen_subq(s, order, alias_at)
+            prog = gen.gen_subq(s, order, alias_at, c_only=c_only)
         except Exception as e:  # noqa: BLE001
             run.counters["generator_failures"] += 1
             run.extra.setdefault("generator_failure_examples", [])
@@ -135,7 +143,7 @@ def execute(run, prop, shard):
             run.counters[f"refused:{be}:{cls}"] += 1
             if be == "pol":
                 fs.append(Finding("pol_subquery", "pol", st_i, f"Polars raised {cls}", exc=cls))
-            elif cls == "SubqueryError" and isinstance(st_i, int):
+            elif cls == "SubqueryError" and isinstance(st_i, int) and c_only:
                 j, msg = first_subquery_error(prog, cache)
                 if j is not None:
                     f = repair_check(run, prog, j, msg, cache)
